@@ -3,8 +3,8 @@
 cd /verif
 for d in seeded/*/; do
   n=$(basename $d); prop=${n%%-*}
-  if ! git -C /repo apply --check $d/patch.diff 2>/dev/null; then echo "$n PATCH-DOES-NOT-APPLY"; continue; fi
-  git -C /repo apply $d/patch.diff
+  if ! git -C /repo apply --check /verif/$d/patch.diff 2>/dev/null; then echo "$n PATCH-DOES-NOT-APPLY"; continue; fi
+  git -C /repo apply /verif/$d/patch.diff
   out=$(timeout 1800 ./check $prop quick 2>&1 | grep -E "VIOLATION|\] exit" | head -3 | tr '\n' ' ')
   git -C /repo checkout -- .
   echo "$n $(echo $out | grep -c VIOLATION) :: $(echo $out | cut -c1-160)"
